@@ -5,6 +5,7 @@ package main
 
 import (
 	"fmt"
+	"math/big"
 	"strconv"
 	"strings"
 
@@ -58,13 +59,20 @@ type rkCol struct {
 	ty   *valgen.Ty
 }
 
+// schRow: one row of system_schema.columns: kind p (partition key) / c (clustering) / r (regular), position
+type schRow struct {
+	name string
+	kind string
+	pos  int
+}
+
 type rkCase struct {
 	proto   byte
 	gs      bool   // global table spec in the PREPARE answer
 	kind    string // q | b | bx
 	pk      []int  // partition-key bind indexes of the PREPARE answer (sent under protocol >= 4 only)
-	sch     bool   // the keyspace metadata knows the table
-	schPK   []string
+	sch     int    // 0: the schema tables do not know the table; 1: Cassandra 3.x+ style rows; 2: 2.x style rows
+	schRows []schRow // the rows of the schema's columns table for the table, in the order the server returned them
 	cols    []rkCol
 	rows    [][]*valgen.Val
 	stmtTag string
@@ -118,15 +126,18 @@ func (c *rkCase) op(name string) string {
 	for _, i := range c.pk {
 		fmt.Fprintf(&sb, " %d", i)
 	}
-	fmt.Fprintf(&sb, " %s %d", b2(c.sch), len(c.schPK))
-	for _, n := range c.schPK {
-		sb.WriteString(" " + n)
+	fmt.Fprintf(&sb, " %d %d", c.sch, len(c.schRows))
+	for _, r := range c.schRows {
+		fmt.Fprintf(&sb, " %s:%s:%d", r.name, r.kind, r.pos)
 	}
 	fmt.Fprintf(&sb, " %d", len(c.cols))
 	for _, col := range c.cols {
 		sb.WriteString(" | " + col.name + " " + col.ty.String())
 	}
-	fmt.Fprintf(&sb, " %d", len(c.rows))
+	fmt.Fprintf(&sb, " | %d", len(c.rows))
+	for _, row := range c.rows {
+		fmt.Fprintf(&sb, " %d", len(row))
+	}
 	for _, row := range c.rows {
 		for _, v := range row {
 			sb.WriteString(" | " + v.String())
@@ -173,44 +184,52 @@ func parseRkm(w []string) *rkCase {
 	for k := 0; k < npk; k++ {
 		c.pk = append(c.pk, num())
 	}
-	c.sch = next() == "1"
+	c.sch = num()
 	m := num()
 	for k := 0; k < m; k++ {
-		c.schPK = append(c.schPK, next())
+		f := strings.Split(next(), ":")
+		if len(f) != 3 {
+			panic("bad-op: schema row")
+		}
+		pos, err := strconv.Atoi(f[2])
+		if err != nil || pos < 0 || pos > 1<<12 {
+			panic("bad-op: schema row")
+		}
+		c.schRows = append(c.schRows, schRow{f[0], f[1], pos})
 	}
 	ncols := num()
-	var last []string
 	for k := 0; k < ncols; k++ {
 		s := seg()
-		if k == ncols-1 {
-			// the last column segment is followed by <nrows>
-			if len(s) < 3 {
-				panic("bad-op: column")
-			}
-			last = s[len(s)-1:]
-			s = s[:len(s)-1]
-		}
 		if len(s) < 2 {
 			panic("bad-op: column")
 		}
 		_, t, _ := valgen.ParseTV(append(append([]string{"4"}, s[1:]...), "nil"))
 		c.cols = append(c.cols, rkCol{s[0], t})
 	}
-	nrows := 0
-	if ncols == 0 {
-		nrows = num()
-	} else {
-		n, err := strconv.Atoi(last[0])
-		if err != nil || n < 0 {
-			panic("bad-op: rows")
+	cnt := seg() // <nrows> <number of values of row 1> ...
+	if len(cnt) < 1 {
+		panic("bad-op: rows")
+	}
+	atoi := func(s string) int {
+		n, err := strconv.Atoi(s)
+		if err != nil || n < 0 || n > 1<<16 {
+			panic("bad-op: number")
 		}
-		nrows = n
+		return n
+	}
+	nrows := atoi(cnt[0])
+	if len(cnt) != 1+nrows {
+		panic("bad-op: rows")
 	}
 	for r := 0; r < nrows; r++ {
 		var row []*valgen.Val
-		for k := 0; k < ncols; k++ {
+		for k := 0; k < atoi(cnt[1+r]); k++ {
 			s := seg()
-			tw := strings.Fields(c.cols[k].ty.String())
+			// a value bound to marker k is written for the type of marker k; a surplus value as an int column's
+			tw := []string{"int"}
+			if k < ncols {
+				tw = strings.Fields(c.cols[k].ty.String())
+			}
 			_, _, v := valgen.ParseTV(append(append([]string{strconv.Itoa(int(c.proto))}, tw...), s...))
 			row = append(row, v)
 		}
@@ -224,14 +243,32 @@ func parseRkm(w []string) *rkCase {
 
 const rkStmt = "UPDATE ks.tbl SET verif = ? WHERE verif = ?"
 
+// the second entry of a `bx` batch: another prepared statement on another table, key = its only marker (int)
+const rkStmt2 = "INSERT INTO ks.other (a) VALUES (?)"
+
+func otherPreparedBody(proto byte) []byte {
+	c := &rkCase{proto: proto, gs: true, pk: []int{0}, cols: []rkCol{{"k0", &valgen.Ty{Name: "int"}}}}
+	return c.preparedBody()
+}
+
 func (c *rkCase) run() string {
-	schema := &gocql.VerifC09Schema{Keyspace: "ks", Tables: map[string][]string{}}
-	if c.sch {
-		schema.Tables["tbl"] = c.schPK
+	// the keyspace metadata is compiled by the real compileMetadata from the schema rows
+	schema := &gocql.VerifC09Schema{Keyspace: "ks", Rows: map[string][]gocql.VerifC09ColumnRow{}, Cass2: c.sch == 2}
+	if c.sch != 0 {
+		rows := []gocql.VerifC09ColumnRow{}
+		for _, r := range c.schRows {
+			rows = append(rows, gocql.VerifC09ColumnRow{Name: r.name, Kind: r.kind, Position: r.pos})
+		}
+		schema.Rows["tbl"] = rows
 	}
 	s, err := gocql.VerifC09RoutingSession(c.proto, rkStmt, c.preparedBody(), schema)
 	if err != nil {
 		return "bad-op:" + err.Error()
+	}
+	if c.kind == "bx" {
+		if err := gocql.VerifC09AddPrepared(s, c.proto, rkStmt2, otherPreparedBody(c.proto)); err != nil {
+			return "bad-op:" + err.Error()
+		}
 	}
 	outs := make([]string, len(c.rows))
 	for ri, row := range c.rows {
@@ -255,7 +292,11 @@ func (c *rkCase) run() string {
 				}
 				return "ok " + valgen.HexC(k) + " " + ks + "." + tbl
 			}
-			k, ec := gocql.VerifC09BatchKey(s, rkStmt, vals, c.kind == "bx")
+			stmt2, vals2 := "", []interface{}(nil)
+			if c.kind == "bx" {
+				stmt2, vals2 = rkStmt2, []interface{}{0x5eed0000 + ri}
+			}
+			k, ec := gocql.VerifC09BatchKey(s, rkStmt, vals, stmt2, vals2)
 			switch {
 			case ec != "":
 				return "err:" + ec
@@ -297,6 +338,7 @@ func perm(r *vh.Rng, n int) []int {
 
 // genRkm: one statement shape + 1..3 rows of bound values. Returns the case, whether its expected outcome is
 // covered by the theorems (spec-backed op `rkm`; otherwise `rkmx`, model-vs-code) and a distribution class.
+// Op line: <op> <proto> <gs> <q|b|bx> <npk> <idx>… <sch> <m> <name>… <ncols> {| <name> <T…>}… | <nrows> <nvals>… {| <V…>}…
 func genRkm(r *vh.Rng, g *valgen.Gen) (c *rkCase, specBacked bool, class string) {
 	c = &rkCase{}
 	c.proto = []byte{1, 2, 3, 3, 3, 4, 4, 4, 4, 4, 5, 5}[r.Intn(12)]
@@ -356,10 +398,14 @@ func genRkm(r *vh.Rng, g *valgen.Gen) (c *rkCase, specBacked bool, class string)
 		}
 	}
 	// schema metadata: the table's partition key columns, in key order
+	var schPK []string
 	for k := range pos {
-		c.schPK = append(c.schPK, fmt.Sprintf("k%d", k))
+		schPK = append(schPK, fmt.Sprintf("k%d", k))
 	}
-	c.sch = r.Intn(14) != 0
+	c.sch = []int{1, 1, 1, 2, 2}[r.Intn(5)]
+	if r.Intn(14) == 0 {
+		c.sch = 0
+	}
 	path := "schema"
 	if c.proto >= 4 && r.Intn(4) != 0 {
 		path = "pkidx"
@@ -372,6 +418,9 @@ func genRkm(r *vh.Rng, g *valgen.Gen) (c *rkCase, specBacked bool, class string)
 			for i := range c.cols {
 				if _, ok := isKey[i]; !ok {
 					c.cols[i].name = fmt.Sprintf("k%d", r.Intn(npk))
+					// it may become THE marker of the key column: give it a type whose encoding is deterministic
+					// (a Go map bound to a set / map column is written in map iteration order)
+					c.cols[i].ty = &valgen.Ty{Name: pkScalars[r.Intn(len(pkScalars))]}
 					dup = true
 					break
 				}
@@ -379,10 +428,31 @@ func genRkm(r *vh.Rng, g *valgen.Gen) (c *rkCase, specBacked bool, class string)
 		}
 		if r.Intn(8) == 0 {
 			// the statement does not bind the whole partition key
-			at := r.Intn(len(c.schPK) + 1)
-			c.schPK = append(c.schPK[:at:at], append([]string{"kx"}, c.schPK[at:]...)...)
+			at := r.Intn(len(schPK) + 1)
+			schPK = append(schPK[:at:at], append([]string{"kx"}, schPK[at:]...)...)
 			missing = true
 		}
+	}
+	// the rows of the schema's columns table: the key columns with their position, some clustering and regular
+	// columns, in an arbitrary arrival order (the server sorts them by column NAME, not by position)
+	for k, n := range schPK {
+		c.schRows = append(c.schRows, schRow{n, "p", k})
+	}
+	for k := 0; k < r.Intn(3); k++ {
+		c.schRows = append(c.schRows, schRow{fmt.Sprintf("c%d", k), "c", k})
+	}
+	for i := range c.cols {
+		if _, ok := isKey[i]; !ok && !strings.HasPrefix(c.cols[i].name, "k") && r.Bool() {
+			c.schRows = append(c.schRows, schRow{c.cols[i].name, "r", 0})
+		}
+	}
+	if c.proto != 1 { // protocol 1 reads the key from key_aliases; its schema_columns rows are the regular columns
+		sh := perm(r, len(c.schRows))
+		rows := make([]schRow, len(c.schRows))
+		for i, j := range sh {
+			rows[i] = c.schRows[j]
+		}
+		c.schRows = rows
 	}
 	nrows := 1 + r.Intn(3)
 	for ri := 0; ri < nrows; ri++ {
@@ -407,13 +477,25 @@ func genRkm(r *vh.Rng, g *valgen.Gen) (c *rkCase, specBacked bool, class string)
 		}
 		c.rows = append(c.rows, row)
 	}
+	// a caller that binds the wrong number of values (model-vs-code only)
+	arity := ""
+	if r.Intn(25) == 0 {
+		ri := r.Intn(len(c.rows))
+		if r.Bool() && ncols > 0 {
+			c.rows[ri] = c.rows[ri][:r.Intn(ncols)]
+			arity = "short"
+		} else {
+			c.rows[ri] = append(c.rows[ri], &valgen.Val{Tag: "i", Kind: "int", Int: big.NewInt(int64(r.Intn(100)))})
+			arity = "long"
+		}
+	}
 	// expected outcome class, decided from the generated structure and the real Marshal of every key component
 	// with the type of ITS column (independent of routingKeyInfo): spec-backed when every row is a `key` or a
 	// `nokey` outcome of the theorems
 	specBacked = true
 	out := "key"
 	switch {
-	case path == "schema" && (!c.sch || !c.gs):
+	case path == "schema" && (c.sch == 0 || !c.gs):
 		specBacked, out = false, "nometa"
 	case path == "schema" && missing:
 		out = "nokey"
@@ -422,7 +504,7 @@ func genRkm(r *vh.Rng, g *valgen.Gen) (c *rkCase, specBacked bool, class string)
 		markers := pos
 		if path == "schema" {
 			markers = nil
-			for _, n := range c.schPK {
+			for _, n := range schPK {
 				for i := range c.cols {
 					if c.cols[i].name == n {
 						markers = append(markers, i)
@@ -433,6 +515,10 @@ func genRkm(r *vh.Rng, g *valgen.Gen) (c *rkCase, specBacked bool, class string)
 		}
 		for _, row := range c.rows {
 			for _, mi := range markers {
+				if mi >= len(row) {
+					specBacked, out = false, "arity"
+					continue
+				}
 				if _, st := valgen.Marshal(c.proto, c.cols[mi].ty, row[mi]); st != "ok" {
 					specBacked, out = false, "comp-"+st
 				}
@@ -442,6 +528,9 @@ func genRkm(r *vh.Rng, g *valgen.Gen) (c *rkCase, specBacked bool, class string)
 	class = fmt.Sprintf("rkm/p%d/%s/%s/npk%d/%s", c.proto, path, shape, npk, out)
 	if dup {
 		class += "/dup"
+	}
+	if arity != "" {
+		class += "/" + arity
 	}
 	return
 }
